@@ -65,7 +65,8 @@ func isRewrittenCNAME(res *filtering.Result) (ok bool) {
 		filtering.RewrittenRule,
 		filtering.FilteredSafeSearch) &&
 		res.CanonName != "" &&
-		len(res.IPList) == 0
+		len(res.IPList) == 0 &&
+		!res.CanonNameNoData
 }
 
 // checkHostRules checks the host against filters.  It is safe for concurrent
